@@ -289,3 +289,25 @@ Section RangeRule.
       + apply Hstop.
   Qed.
 End RangeRule.
+
+(* the same, with the shape of the list and the position as side conditions
+   (for erewrite) *)
+Lemma index_at {A} (l : list A) i done x rest :
+  l = done ++ x :: rest -> i = Zlen done -> index l i = ret x.
+Proof. intros -> ->. apply index_app. reflexivity. Qed.
+
+Lemma store_at {A} (l : list A) i v pre y pad :
+  l = pre ++ y :: pad -> i = Zlen pre -> store l i v = ret (pre ++ v :: pad).
+Proof. intros -> ->. apply store_app. reflexivity. Qed.
+
+Lemma slice_to_at {A} (l : list A) n pre pad :
+  l = pre ++ pad -> n = Zlen pre -> slice_to l n = ret pre.
+Proof. intros -> ->. apply slice_to_app. reflexivity. Qed.
+
+Lemma make_bytes_nat n : make_bytes (Z.of_nat n) = ret (repeat 0%N n).
+Proof.
+  unfold make_bytes. destruct (Z.of_nat n <? 0) eqn:E; [apply Z.ltb_lt in E; lia|]. rewrite Nat2Z.id. reflexivity.
+Qed.
+
+Lemma fuel_upto_gt x e n : e - x <= Z.of_nat n -> (n < fuel_upto x e)%nat \/ (Z.to_nat (e - x) < fuel_upto x e)%nat.
+Proof. intros _. right. unfold fuel_upto. lia. Qed.
